@@ -37,6 +37,7 @@ func c12(c *Ctx) {
 	c01R11(c)
 	ruleMakeThenAppend(c, "C12.R6", fns, "configuration entries (routes, addresses, interfaces) handed from the daemon to the plugin")
 	c12R8(c)
+	ruleRoleMismatch(c, "C12.R9", "the whole module (gateway, mask, address and CIDR travel as strings through the factories)")
 }
 
 func c12R1(c *Ctx) {
